@@ -1,0 +1,84 @@
+//! Direct entry points to the hinting arithmetic helpers (`hint::math`,
+//! `RoundState::round`), for the out-of-tree verification harness.
+//!
+//! Compiled only with `--cfg googlefonts_fontations_verif`; adds no behaviour.
+
+/// Plain-integer access to `hint::math` and `hint::round`.
+pub mod hint_arith {
+    use super::super::{
+        math,
+        round::{RoundMode, RoundState},
+        F26Dot6,
+    };
+
+    pub fn floor(x: i32) -> i32 {
+        math::floor(x)
+    }
+
+    pub fn round(x: i32) -> i32 {
+        math::round(x)
+    }
+
+    pub fn ceil(x: i32) -> i32 {
+        math::ceil(x)
+    }
+
+    pub fn round_pad(x: i32, n: i32) -> i32 {
+        math::round_pad(x, n)
+    }
+
+    pub fn mul(a: i32, b: i32) -> i32 {
+        math::mul(a, b)
+    }
+
+    pub fn div(a: i32, b: i32) -> i32 {
+        math::div(a, b)
+    }
+
+    pub fn mul_div(a: i32, b: i32, c: i32) -> i32 {
+        math::mul_div(a, b, c)
+    }
+
+    pub fn mul_div_no_round(a: i32, b: i32, c: i32) -> i32 {
+        math::mul_div_no_round(a, b, c)
+    }
+
+    pub fn mul14(a: i32, b: i32) -> i32 {
+        math::mul14(a, b)
+    }
+
+    pub fn normalize14(x: i32, y: i32) -> (i32, i32) {
+        let p = math::normalize14(x, y);
+        (p.x, p.y)
+    }
+
+    /// `RoundState::round` with the mode given by its declaration index
+    /// (0 Grid, 1 HalfGrid, 2 DoubleGrid, 3 DownToGrid, 4 UpToGrid, 5 Off,
+    /// 6 Super, 7 Super45).
+    pub fn round_state_round(
+        mode: u8,
+        threshold: i32,
+        phase: i32,
+        period: i32,
+        distance: i32,
+    ) -> Option<i32> {
+        let mode = match mode {
+            0 => RoundMode::Grid,
+            1 => RoundMode::HalfGrid,
+            2 => RoundMode::DoubleGrid,
+            3 => RoundMode::DownToGrid,
+            4 => RoundMode::UpToGrid,
+            5 => RoundMode::Off,
+            6 => RoundMode::Super,
+            7 => RoundMode::Super45,
+            _ => return None,
+        };
+        let state = RoundState {
+            mode,
+            threshold,
+            phase,
+            period,
+        };
+        Some(state.round(F26Dot6::from_bits(distance)).to_bits())
+    }
+}
